@@ -151,7 +151,9 @@ func hashFromString(s string, h hash.Hash, seed []byte) (int, error) {
 	sum := h.Sum(nil)
 	reader := bytes.NewReader(sum)
 	var result uint32
-	err := binary.Read(reader, binary.NativeEndian, &result)
+	// Always decode little-endian so that every node, whatever its CPU byte order, derives the
+	// same offset/skip (and hence the same lookup table) for a given backend.
+	err := binary.Read(reader, binary.LittleEndian, &result)
 	if err != nil {
 		return 0, err
 	}
